@@ -18,6 +18,7 @@ type PrintOpts struct {
 	ConstFresh bool   // constant list literal in expression position -> ([...] + [])
 	AugRebind  bool   // x += e -> x = x + (e);  x.append(e) -> x = x + [e]   (python side: emulate asp's rebinding)
 	RetCopy    bool   // return e -> return _dc(e)      (functions hand out deep copies; C17)
+	FoldCase   bool   // string literals: characters whose upper/lower case is more than one character (ß) -> "b"
 }
 
 func (o PrintOpts) needsTree() bool { return o.Mod || o.AddCopy }
@@ -258,6 +259,9 @@ func (p *printer) expr(e *E, pos bool) string {
 	case "i":
 		return strconv.Itoa(e.I)
 	case "s":
+		if p.o.FoldCase {
+			return quoteStr(strings.ReplaceAll(e.S, "ß", "b"))
+		}
 		return quoteStr(e.S)
 	case "T":
 		return "True"
@@ -473,6 +477,8 @@ type features struct {
 	unary      int
 	lazy       int
 	nonASCII   bool
+	sharpS     bool
+	caseCalls  int
 	size       int
 }
 
@@ -486,6 +492,9 @@ func (f *features) walkE(e *E) {
 		for _, r := range e.S {
 			if r > 127 {
 				f.nonASCII = true
+			}
+			if r == 'ß' {
+				f.sharpS = true
 			}
 		}
 	case "ch":
@@ -518,6 +527,9 @@ func (f *features) walkE(e *E) {
 	case "m":
 		if e.S == "append" || e.S == "extend" {
 			f.appends++
+		}
+		if e.S == "upper" || e.S == "lower" {
+			f.caseCalls++
 		}
 	case "c":
 		f.calls++
